@@ -273,15 +273,15 @@ def _op_alarm(signum, frame):
 def execute(env, root_t, mine, other, op):
     """one API operation under a 5 s watchdog (an operation that does not
     return is reported as outcome 'other:timeout')"""
-    import signal
-    signal.signal(signal.SIGALRM, _op_alarm)
-    signal.alarm(5)
+    from .common import watchdog_install, watchdog_start, watchdog_stop
+    watchdog_install(_op_alarm)
+    watchdog_start(5)
     try:
         return _execute(env, root_t, mine, other, op)
     except OpTimeout:
-        return "other:timeout: the operation did not return within 5 s"
+        return "other:timeout: the operation did not return within 5 s of CPU time"
     finally:
-        signal.alarm(0)
+        watchdog_stop()
 
 
 def _execute(env, root_t, mine, other, op):
